@@ -779,6 +779,9 @@ class Machine:
         self.cur = None
         self.executions = []      # every started execution: dict(name, uid, tag, kind)
         self.tag = 0
+        # ORACLE bookkeeping (independent of the implementation): per copy the statuses "so far" as the property
+        # understands them -- replayed previous results, then one entry per execution (UNKNOWN until its result is read)
+        self.ledger = [[] for _ in copies]
 
     # seams ---------------------------------------------------------------------------------
     def _deliver(self, ex):
@@ -847,6 +850,8 @@ class Machine:
             return "noop"          # a worker is sequential: its copy cannot be started while it awaits it
         ex = self._begin(self.nodes[i], "main")
         ex["copy"] = i
+        ex["entry"] = ["UNKNOWN"]
+        self.ledger[i].append(ex["entry"])
         self.pending.append(ex)
         return f"started {ex['name']} {ex['uid']}"
 
@@ -854,6 +859,8 @@ class Machine:
         if j >= len(self.pending):
             return "noop"
         ex = self.pending.pop(j)
+        if outcome is not None and outcome[2] < status_timeout():
+            ex["entry"][0] = outcome[0]
         ret = self._end(ex, outcome)
         if ret.startswith("error:"):
             return ret
@@ -866,6 +873,8 @@ class Machine:
             return "noop"
         n = self.nodes[i]
         before = len(n.results)
+        if not self.ledger[i]:
+            self.ledger[i] += [[r[1]] for r in prev if re.search(n.bridged_form, r[0])]
         g = self.I.TestGraph()
         self.runner.previous_results = [{"name": r[0], "status": r[1], "time_elapsed": r[2]} for r in prev]
         g.runner = self.runner
@@ -1071,6 +1080,15 @@ def judge_machine(ctx, c, m):
                                                f"exactly this result (found {len(mine)})", c)
         elif mine and mine[0]["status"] not in (o[0], "WARN"):
             ctx.violate("own-result-not-read", f"execution {e['uid']} recorded status {mine[0]['status']}, reported {o[0]}", c)
+    # "every status so far": the node's results are exactly the replayed previous results plus one entry per execution
+    for i, n in enumerate(m.nodes):
+        def norm(xs):
+            return sorted("PASS" if x == "WARN" else x for x in xs)     # the duration rule may turn PASS into WARN
+        got_l, want_l = norm(r["status"] for r in n.results), norm(e[0] for e in m.ledger[i])
+        if got_l != want_l:
+            ctx.violate("results-ledger-wrong", f"copy {i} holds statuses {got_l}, the executions and replayed results "
+                                                f"so far give {want_l}", c)
+            break
     # verdict: successful exactly when every executed test has at least one acceptable result
     executed = {e["name"] for e in m.executions if e not in m.pending}
     have = {}
